@@ -178,6 +178,10 @@ def _float_ops(s: Sym) -> List[Tuple[Sym, Sym]]:
             # total_seconds() divides the integer microsecond total by 10**6 in floating point
             base = t[1][1]
             out.append((t, ("op", "//", base, N("_1_microsecond"))))
+        elif t[0] == "call" and dotted(t[1]).endswith(".timestamp") and not t[2]:
+            # datetime.timestamp() is (dt - epoch) / timedelta(seconds=1) in floating point
+            base = t[1][1]
+            out.append((t, ("op", "//", ("op", "-", base, N("_epoch")), N("_1_microsecond"))))
     return out
 
 
@@ -358,8 +362,89 @@ def rule_Q4c(ctx) -> None:
         ctx.proved("Q4", "duration-parser:exact", mod.loc(fdi), f"{len(sites)} functions, {n} float() conversions, none on the whole text")
 
 
+# google/protobuf/duration.proto: "seconds ... Must be from -315,576,000,000 to +315,576,000,000 inclusive";
+# timestamp.proto: 0001-01-01T00:00:00Z .. 9999-12-31T23:59:59Z
+DURATION_MAX_SECONDS = 315_576_000_000
+TIMESTAMP_MIN_SECONDS, TIMESTAMP_MAX_SECONDS = -62_135_596_800, 253_402_300_799
+
+
+def rule_Q5(ctx) -> None:
+    """(a) an aware datetime is converted through its UTC instant, never through naive wall-clock fields;
+    (b) range checks of the converters do not reject values inside the documented range (bounds are inclusive)"""
+    mod = ctx.repo.mod(M_INIT)
+    fd = mod.func("_Timestamp.from_datetime")
+    ctx.analysed("_Timestamp.from_datetime", "_Duration.from_timedelta")
+    naive = [c for c in ast.walk(fd) if isinstance(c, ast.Call) and isinstance(c.func, ast.Attribute) and (
+        c.func.attr == "timetuple" or (c.func.attr == "replace" and any(k.arg == "tzinfo" and isinstance(k.value, ast.Constant) and k.value.value is None for k in c.keywords)))]
+    if naive:
+        ctx.refuted("Q5", "from_datetime:utc-instant", ast.unparse(naive[0]), mod.loc(naive[0]),
+                    f"`{ast.unparse(naive[0])}` drops the UTC offset (timetuple() returns the wall-clock fields, utctimetuple() the UTC ones): an aware datetime that is not in UTC is encoded "
+                    "as if its local fields were UTC", "datetime(2023, 10, 11, 15, 11, 12, tzinfo=timezone(timedelta(hours=5, minutes=30)))")
+    else:
+        ctx.proved("Q5", "from_datetime:utc-instant", mod.loc(fd))
+    for q, cls_name, lo, hi in (("_Duration.from_timedelta", "_Duration", -DURATION_MAX_SECONDS, DURATION_MAX_SECONDS),
+                                ("_Timestamp.from_datetime", "_Timestamp", TIMESTAMP_MIN_SECONDS, TIMESTAMP_MAX_SECONDS)):
+        fn = mod.func(q)
+        consts = {}
+        for st in mod.cls(cls_name).body:
+            if isinstance(st, ast.Assign) and len(st.targets) == 1 and isinstance(st.targets[0], ast.Name):
+                try:
+                    consts[st.targets[0].id] = ast.literal_eval(st.value)
+                except Exception:
+                    pass
+        bad = None
+        n = 0
+        for node in ast.walk(fn):
+            if not (isinstance(node, ast.If) and any(isinstance(b, ast.Raise) for b in node.body)):
+                continue
+            tests = node.test.values if isinstance(node.test, ast.BoolOp) else [node.test]
+            for t in tests:
+                if not (isinstance(t, ast.Compare) and len(t.ops) == 1):
+                    continue
+                left, right, op = t.left, t.comparators[0], t.ops[0]
+
+                def const(e):
+                    if isinstance(e, ast.Attribute) and isinstance(e.value, ast.Name) and e.value.id in ("cls", "self", cls_name) and e.attr in consts:
+                        return consts[e.attr]
+                    if isinstance(e, ast.UnaryOp) and isinstance(e.op, ast.USub):
+                        v = const(e.operand)
+                        return -v if v is not None else None
+                    try:
+                        return ast.literal_eval(e)
+                    except Exception:
+                        return None
+                var, c, flipped = (left, const(right), False) if const(right) is not None else (right, const(left), True)
+                if c is None or "second" not in ast.unparse(var).lower() or not isinstance(c, (int, float)):
+                    continue
+                n += 1
+                opn = type(op).__name__
+                if flipped:
+                    opn = {"Lt": "Gt", "LtE": "GtE", "Gt": "Lt", "GtE": "LtE"}.get(opn, opn)
+                is_abs = "abs(" in ast.unparse(var)
+                # the set rejected by this comparison
+                rejected_valid = None
+                if opn == "GtE" and c <= hi:
+                    rejected_valid = c
+                elif opn == "Gt" and c < hi:
+                    rejected_valid = c + 1
+                elif opn == "LtE" and (c >= lo and not is_abs):
+                    rejected_valid = c
+                elif opn == "Lt" and (c > lo and not is_abs):
+                    rejected_valid = c - 1
+                if rejected_valid is not None:
+                    bad = (t, rejected_valid)
+        name = f"{q.split('.')[-1]}:range-check-inclusive"
+        if bad:
+            t, v = bad
+            ctx.refuted("Q5", name, ast.unparse(t), mod.loc(t),
+                        f"`{ast.unparse(t)}` raises for seconds = {v}, which lies inside the documented range [{lo}, {hi}] (the bounds are inclusive): a valid value is rejected instead of encoded",
+                        f"timedelta(seconds={v})" if "Duration" in q else f"the instant {v} s from the epoch")
+        else:
+            ctx.proved("Q5", name, mod.loc(fn), f"{n} range comparisons")
+
+
 def run(ctx) -> None:
-    for name, fn in (("Q1", rule_Q1), ("Q2", rule_Q2), ("Q3", rule_Q3), ("Q4", rule_Q4), ("K3", jsonrules.rule_K3)):
+    for name, fn in (("Q1", rule_Q1), ("Q2", rule_Q2), ("Q3", rule_Q3), ("Q4", rule_Q4), ("Q5", rule_Q5), ("K3", jsonrules.rule_K3)):
         ctx.rules_run.append(name)
         fn(ctx)
     ctx.assume("declared range table: timedelta.days in +-999999999, .seconds in [0, 86400), .microseconds/.microsecond in [0, 10**6), nanos in +-(10**9 - 1)")
